@@ -123,6 +123,8 @@ class C15(Prop):
                 base = self.rand_seq(rng, first, k8=(first is None and rng.random() < 0.03))
             cases.append(base)
             cases.extend(self.crash_variants(base))
+            if k in (3, 9, 15):
+                cases.append(self.reclose_seq(rng))
             if rng.random() < 0.15:
                 cases.append(self.multi_crash(base, rng))
         return cases
@@ -154,6 +156,27 @@ class C15(Prop):
                 free = [p for p in PREFIXES if p not in used]
                 cfgs.append({'p': rng.choice(free or PREFIXES), 'ro': rng.random() < 0.3, 'tr': rng.random() < 0.5})
         return cfgs
+
+    def reclose_seq(self, rng):
+        """a transient cassette object that is closed, used again and closed again (two `with` blocks, a close() that is
+        retried): every close removes what the cassette stored until then"""
+        p = rng.choice(PREFIXES)
+        cfgs = [{'p': p, 'ro': False, 'tr': True}, {'p': rng.choice([q for q in PREFIXES if q != p]), 'ro': False, 'tr': False}]
+        foreign = rng.sample(FOREIGN, rng.randint(2, len(FOREIGN)))
+        ops = []
+        for j in range(3):
+            t = TIMES[min(j, len(TIMES) - 1)]
+            cat = rng.choice(CATS[:2])
+            u = 'u%03d' % j
+            ops.append({'c': 0, 'op': 'create', 'cat': cat, 'uid': u, 't': t})
+            ops.append({'c': 0, 'op': 'save', 'id': '%s/%s/%s' % (cat, day_str(t), u), 't': t})
+            if j == 0:
+                ops.append({'c': 1, 'op': 'create', 'cat': cat, 'uid': 'n%03d' % j, 't': t})
+                ops.append({'c': 1, 'op': 'save', 'id': '%s/%s/n%03d' % (cat, day_str(t), j), 't': t})
+            ops.append({'c': 0, 'op': rng.choice(['close', 'exit'])})
+            ops.append({'c': rng.choice([0, 1]), 'op': 'list', 'cat': cat})
+        ops.append({'c': 0, 'op': 'close'})
+        return self.finish(foreign, cfgs, ops)
 
     def resave_seq(self, rng):
         """save a recording, delete it by closing a transient writable cassette on that key prefix (the saving cassette
